@@ -5,6 +5,7 @@
 OUT=$1; shift
 export GOFLAGS=-mod=mod GOPROXY=off GOSUMDB=off GOTOOLCHAIN=local
 for D in "$@"; do
+  D=$(realpath $D)
   name=$(basename $D)
   prop=$(python3 -c "import json;print(json.load(open('$D/meta.json'))['property'])")
   WT=$(mktemp -d /tmp/matrix-$name-XXXX); rmdir $WT
